@@ -463,11 +463,22 @@ def run(ctx: Ctx) -> Result:
              for i in (0, len(trs) // 2, len(trs) - 1)],
         'exhaustive': True,
     }
+    # scheduler leg: pool membership after a finish
+    leg = scheduler_leg(ctx)
+    violations.extend(leg.violations)
+    cov['scheduler_leg'] = leg.coverage
+    cov['exhaustive'] = bool(leg.coverage.get('exhaustive'))
     return Result(cov, violations, assumptions=[
-        'Engine-B part only: TaskOutputs.is_complete() is the observed '
-        'decision; that TaskPool.remove_if_complete removes/retains (and '
-        'logs) accordingly belongs to the scheduler exploration leg, not '
-        'built here',
+        'two legs: (B) TaskOutputs.is_complete() against the documented '
+        'rule for every definition and output subset; (A) model checking of '
+        'the real Scheduler: a proxy removed as completed in a final status '
+        'must be complete, and at every main-loop boundary no complete '
+        'proxy in a final status is still pooled (flow-wait proxies '
+        'excepted); the "logged" part of the statement is not judged',
+        'scheduler leg: one-cycle workflows (see scheduler_leg.bounds), jobs '
+        'may emit any subset of their custom outputs, listed tasks may fail, '
+        'one `cylc trigger` of the possibly incomplete task per execution at '
+        'any main-loop boundary',
         'task definitions are those a graph can declare (submit-failed and '
         'expired never required; succeeded/failed and submitted/'
         'submit-failed only both mentioned when both optional); produced by '
@@ -492,7 +503,76 @@ def run(ctx: Ctx) -> Result:
 
 # ------------------------------------------------------------------ replay
 
+# ------------------------------------------------ scheduler leg (Engine A)
+
+def sched_catalogue(tier: str):
+    from ..sched import catalogue as cat
+    from ..sched.catalogue import A, E, spec_from
+    shapes = dict(cat.basic_shapes())
+    trig = [('force_trigger_tasks', {'tasks': ['1/a'], 'flow': ['all']})]
+    rows = [
+        # name, items, ops, failing tasks, emit
+        # a required custom output the job may or may not produce; the
+        # incomplete task may be run again by the operator (same proxy)
+        ('custom-rerun', shapes['custom'], trig, (), 'any'),
+        ('customopt', shapes['customopt'], [], (), 'any'),
+        ('failopt', shapes['failopt'], [], ('a',), 'all'),
+        ('chain2-fail-rerun', shapes['chain2'], trig, ('a',), 'all'),
+    ]
+    if tier == 'thorough':
+        rows += [
+            ('custom2-rerun', [E(A('a', 0, 'x'), 'b'), E(A('a', 0, 'y'), 'c')],
+             trig, (), 'any'),
+            ('customopt-rerun', shapes['customopt'], trig, ('a',), 'any'),
+            ('finish', shapes['finish'], [], ('a',), 'all'),
+        ]
+    out = []
+    for name, items, ops, fails, emit in rows:
+        sp = spec_from([('P1', items)], 1, 1, name=name)
+        sp.update(ops=ops, fail_tasks=list(fails), emit=emit)
+        out.append(sp)
+    return out
+
+
+def make_factory(spec):
+    from ..sched.mon_c11 import Retention
+    from ..sched.monitors import PoolInvariants
+    from ..sched.profile import OpProfile
+    ops = list(spec['ops'])
+
+    def factory():
+        outcomes = {t: ['succeeded', 'failed'] for t in spec['fail_tasks']}
+        return OpProfile(
+            spec, ops=lambda w: ops, op_budget=1 if ops else 0,
+            monitors=[Retention, PoolInvariants], outcomes=outcomes,
+            emit=spec['emit'], jump=())
+    return factory
+
+
+def scheduler_leg(ctx: Ctx) -> Result:
+    from ..sched.run import explore_all, result_from
+    specs = sched_catalogue(ctx.tier)
+    st = explore_all(
+        ctx, [make_factory(s) for s in specs],
+        max_states=ctx.pick(4000, 40000), max_seconds=ctx.pick(200, 1500))
+    if not st.violations and not st.error:
+        if not any(k.startswith('quiescent:stalled') for k in st.terminals):
+            raise HarnessError(
+                'scheduler leg vacuous: no run ended stalled on an '
+                f'incomplete task (terminals {sorted(st.terminals)})')
+    return result_from(
+        ctx, st, prop='C11',
+        bounds={'workflows': [s['name'] for s in specs],
+                'operator commands per execution': 1},
+        assumptions=[], min_states=100)
+
+
 def replay(payload):
+    if payload.get('events') is not None:
+        from ..sched.run import replay_violation
+        specs = {s['name']: s for s in sched_catalogue('thorough')}
+        return replay_violation(
+            payload, lambda pl: make_factory(specs[pl['spec_name']]))
     from cylc.flow.taskdef import TaskDef
     custom = payload['custom']
     decl = payload['decl']
